@@ -1,0 +1,28 @@
+//go:build verif
+
+package verifhook
+
+// Enabled reports whether the hooks are compiled in.
+const Enabled = true
+
+// Sink receives every event, synchronously, on the goroutine that emitted it.
+// It must be set before any instrumented code runs and is nil by default.
+var Sink func(event string, args []any)
+
+// GateFn is called at every scheduling point, on the goroutine that reached it,
+// and may block. It must be set before any instrumented code runs and is nil by default.
+var GateFn func(point string)
+
+// Emit records an event.
+func Emit(event string, args ...any) {
+	if s := Sink; s != nil {
+		s(event, args)
+	}
+}
+
+// Gate marks a scheduling point.
+func Gate(point string) {
+	if g := GateFn; g != nil {
+		g(point)
+	}
+}
